@@ -234,6 +234,33 @@ class P(core.Prop):
                 return ['copy', casevar(rng, cd), casevar(rng, cs)]
         return None
 
+    def _flight(self, rng, sim, opts, lists, event=None):
+        """save() whose answer (250 or 5xx) arrives only after 1-3 further operations: assignments, in-place
+        edits, reads, needs_save(), another save() (and CONF_CHANGED events for C11)"""
+        rej = None if rng.random() < 0.6 else rng.choice([552, 513])
+        s2 = sim.clone()
+        inner = []
+        for _ in range(rng.choice([1, 1, 2, 3])):
+            r = rng.random()
+            if r < 0.30:
+                cn, k = rng.choice(opts)
+                d = ['assign', casevar(rng, cn), self._value(rng, k)]
+            elif r < 0.55 and lists:
+                cn, k = rng.choice(lists)
+                d = self._listop(rng, s2, cn, k, casevar(rng, cn))
+            elif r < 0.70:
+                d = ['read', casevar(rng, rng.choice(opts)[0])]
+            elif r < 0.80:
+                d = ['needs_save']
+            elif r < 0.90 or event is None:
+                d = ['save']
+            else:
+                d = event()
+            inner.append(d)
+            if d[0] != 'save':
+                s2.step(d)
+        return ['saveduring', rej, inner]
+
     def _history(self, rng, table, store, defaults, clean, n_ops):
         tab = [tuple(r) for r in table]
         dfl = None if defaults is None else [tuple(d) for d in defaults]
@@ -257,18 +284,17 @@ class P(core.Prop):
                 op = self._listop(rng, sim, cn, k, casevar(rng, cn))
             elif r < 0.80:
                 op = ['save', None if rng.random() < 0.72 else rng.choice([552, 513, 553, 551])]
+                if rng.random() < 0.3:
+                    op = self._flight(rng, sim, opts, lists)
             elif r < 0.93:
                 op = ['read', casevar(rng, rng.choice(opts)[0])]
             else:
                 op = ['needs_save']
-            if clean:
-                s2 = sim.clone()
-                s2.step(op)
-                if any(s2.flags()):
-                    continue
-                sim = s2
-            else:
-                sim.step(op)
+            s2 = sim.clone()
+            s2.step(op)
+            if s2.fs or (clean and any(s2.flags())):
+                continue
+            sim = s2
             ops.append(op)
         return ops
 
@@ -410,6 +436,16 @@ class P(core.Prop):
                 used.add(o[1].lower())
             if o[0] == 'copy':
                 used.add(o[2].lower())
+            if o[0] == 'saveduring':
+                for d in o[2]:
+                    if d[0] in ('assign', 'listop', 'read'):
+                        used.add(d[1].lower())
+                    if d[0] == 'event':
+                        used.update(k.lower() for k, _ in d[1])
+        for i, o in enumerate(ops):
+            if o[0] == 'saveduring':
+                for j in range(len(o[2])):
+                    yield dict(case, ops=ops[:i] + [[o[0], o[1], o[2][:j] + o[2][j + 1:]]] + ops[i + 1:])
         tab = case['table']
         for i, (n, t) in enumerate(tab):
             base = n.lower()
